@@ -1405,6 +1405,42 @@ def C13(tier):
                         bad = bad or 'shards=%d: key %r routed to shard %d, released routing says %d (keys hashed before: %d)' % (
                             shards, k, got, exp, order.index(k))
                 fan.close()
+        # every key-addressed method acts on the released shard and on no other
+        numeric = [k for k in keys if type(k) in (int, float, bool)]
+        methods = [('set', lambda f, k: f.set(k, 5)), ('__setitem__', lambda f, k: f.__setitem__(k, 5)), ('add', lambda f, k: f.add(k, 5)),
+                   ('incr', lambda f, k: f.incr(k, 1, default=0)), ('decr', lambda f, k: f.decr(k, 1, default=9))]
+        readers = [('get', lambda f, k: f.get(k)), ('__getitem__', lambda f, k: f[k]), ('read', None), ('__contains__', lambda f, k: k in f),
+                   ('touch', lambda f, k: f.touch(k, expire=100)), ('incr', lambda f, k: f.incr(k)), ('decr', lambda f, k: f.decr(k)),
+                   ('pop', lambda f, k: f.pop(k)), ('delete', lambda f, k: f.delete(k)), ('__delitem__', lambda f, k: f.__delitem__(k))]
+        fan = diskcache.FanoutCache(d + '/routes', shards=5)
+        for k in keys:
+            if isinstance(k, frozenset):
+                continue
+            home = released_hash(k) % 5
+            for name, m in methods:
+                cases += 1
+                fan.clear()
+                m(fan, k)
+                where = [i for i, sh in enumerate(fan._shards) if len(sh)]
+                if where != [home]:
+                    bad = bad or 'FanoutCache.%s(%r) stored into shard(s) %r, the released routing says %d' % (name, k, where, home)
+            for name, m in readers:
+                if m is None:
+                    continue
+                cases += 1
+                fan.clear()
+                fan._shards[home].set(k, 7)
+                try:
+                    got = m(fan, k)
+                except KeyError:
+                    got = 'KeyError'
+                expect = {'get': 7, '__getitem__': 7, '__contains__': True, 'touch': True, 'incr': 8, 'decr': 6, 'pop': 7, 'delete': True,
+                          '__delitem__': None}[name]
+                others = [i for i, sh in enumerate(fan._shards) if len(sh) and i != home]
+                if got != expect or others:
+                    bad = bad or 'FanoutCache.%s(%r) with the item in its released shard %d gave %r (expected %r); other shards touched: %r' % (
+                        name, k, home, got, expect, others)
+        fan.close()
         # observable equivalence with an unsharded cache on a small history + aggregate coverage
         fan = diskcache.FanoutCache(d + '/eq', shards=3)
         plain = diskcache.Cache(d + '/plain')
@@ -1429,7 +1465,7 @@ def C13(tier):
     finally:
         shutil.rmtree(d, ignore_errors=True)
     return [result('C13.standin.routing_and_equivalence', bad is None,
-                   '23 keys (look-alike pairs) x shard counts {1,2,3,8,13} x 2 hashing orders against the released routing; small equivalence history', cases, bad)]
+                   '23 keys (look-alike pairs) x shard counts {1,2,3,8,13} x 2 hashing orders against the released routing; 14 key-addressed methods x keys act on the released shard only; small equivalence history', cases, bad)]
 
 
 # ====================================================================== values (C01)
